@@ -435,6 +435,9 @@ def meta_scenarios():
     sc['meta:sequencer_specific'] = [Ev('meta', 'sequencer_specific', {'data': AList([SeqVar('S', 255)], 'tuple')}, tsym('t1'))]
     sc['meta:unknown'] = [Ev('unknown_meta', 'unknown_meta', {'data': AList([SeqVar('U', 255)], 'tuple')}, tsym('t1'), type_byte=0x60)]
     sc['meta:unknown-empty'] = [Ev('unknown_meta', 'unknown_meta', {'data': ()}, tsym('t1'), type_byte=0x0a)]
+    # a meta type is any byte: the reader takes types above 0x7f, so the writer has to give them back as they are
+    for tb in (0x80, 0x90, 0xd1, 0xff):
+        sc[f'meta:unknown({tb:#04x})'] = [Ev('unknown_meta', 'unknown_meta', {'data': AList([SeqVar('U', 255)], 'tuple')}, tsym('t1'), type_byte=tb)]
     return sc
 
 
@@ -548,6 +551,7 @@ def step_events():
     out.append(('meta-tempo', Ev('meta', 'set_tempo', {'tempo': sym('tempo', 0xffffff)}, tsym('ts')), None))
     out.append(('meta-eot', Ev('meta', 'end_of_track', {}, tsym('ts')), None))
     out.append(('meta-unknown', Ev('unknown_meta', 'unknown_meta', {'data': AList([SeqVar('U', 255)], 'tuple')}, tsym('ts'), type_byte=0x60), None))
+    out.append(('meta-unknown-high', Ev('unknown_meta', 'unknown_meta', {'data': AList([SeqVar('U', 255)], 'tuple')}, tsym('ts'), type_byte=0xaf), None))
     return out
 
 
